@@ -68,7 +68,7 @@ class ModelCheck:
                                        timeout=900)
         self.design = self.pool.submit(tlc.run_tlc, "MC_RunLifecycle", "MC_RunLifecycle_design.cfg", workers=4,
                                        coverage=True, timeout=900, parse_prints=False)
-        self.neg = {n: self.pool.submit(tlc.run_tlc, "MC_RunLifecycle", f"MC_RunLifecycle_{n}.cfg", workers=2,
+        self.neg = {n: self.pool.submit(tlc.run_tlc, "MC_RunLifecycle", f"MC_RunLifecycle_{n}.cfg", workers=1,
                                         timeout=900, parse_prints=False) for n in NEG_CONTROLS}
 
     def cases(self, rep: Report) -> list[dict[str, Any]]:
